@@ -77,7 +77,7 @@ def draw(circuit, m, seed):
 
 
 def event(circuit, m, seed, cls):
-    e = {"cls": cls, "gates": GATES, "map": project_map(m), "seed": seed, "err": "", "ops": [], "out": [], "out2": []}
+    e = {"fn": "draw", "cls": cls, "gates": GATES, "map": project_map(m), "seed": seed, "err": "", "ops": [], "out": [], "out2": []}
     try:
         e["ops"], e["out"] = draw(circuit.copy(), m, seed)
         _ops2, e["out2"] = draw(circuit.copy(), m, seed)
@@ -100,6 +100,23 @@ def run(ctx):
         events.append(event(circuit, m, rng.randrange(10 ** 6),
                             ("wrapper" if has_wrapper else "plain") + ("-deterministic-map" if det else "") +
                             ("-cleared-gate" if clr else "")))
+    # controlled pairs under a map that lists one noise with probability 1/2: control and target are drawn separately
+    from graphiq.noise.monte_carlo_noise import McNoiseMap
+    prog = [{"k": "Hadamard", "r": [["e", 0]], "c": None}] + [{"k": "CNOT", "r": [["e", 0], ["p", q]], "c": None} for q in range(3)] + \
+           [{"k": "CZ", "r": [["e", 0], ["e", 1]], "c": None}]
+    circuit = cz.build_circuit(2, 3, 1, prog)
+    m = McNoiseMap()
+    m.add_gate_noise("ep", "CNOT", [x06.mk_tuple(["X", 4, True])])
+    m.add_gate_noise("ee", "CZ", [x06.mk_tuple(["Z", 4, True])])
+    total = differ = 0
+    for k in range(40):
+        _ops, out = draw(circuit.copy(), m, rng.randrange(10 ** 6))
+        for o in out:
+            if len(o) == 2:
+                total += 1
+                differ += o[0] != o[1]
+    events.append({"fn": "pairs", "cls": "pairs", "total": total, "differ": differ, "err": "", "gates": GATES,
+                   "map": project_map(m), "ops": [], "out": [], "out2": [], "seed": 0})
     by = {}
     for e in events:
         by.setdefault(e["cls"], []).append(e)
